@@ -47,8 +47,8 @@ def fnFacts : List FnFact := [
   ⟨27, "converged_charging.go:HandleChargingdataInitial", false, 0, 0, "", false⟩,
   ⟨28, "converged_charging.go:HandleChargingdataUpdate", false, 0, 0, "", false⟩,
   ⟨29, "converged_charging.go:HandleChargingdataRelease", false, 0, 0, "", false⟩,
-  ⟨30, "converged_charging.go:ChargingDataCreate", true, 4, 0, "", false⟩,
-  ⟨31, "converged_charging.go:ChargingDataUpdate", true, 5, 0, "", false⟩,
+  ⟨30, "converged_charging.go:ChargingDataCreate", true, 5, 0, "", false⟩,
+  ⟨31, "converged_charging.go:ChargingDataUpdate", true, 6, 0, "", false⟩,
   ⟨32, "converged_charging.go:ChargingDataRelease", true, 2, 0, "", false⟩,
   ⟨33, "converged_charging.go:BuildOnlineChargingDataCreateResopone", false, 0, 1, "", false⟩,
   ⟨34, "converged_charging.go:BuildConvergedChargingDataUpdateResopone", false, 0, 0, "", false⟩,
